@@ -207,16 +207,11 @@ void h_rv_validate(void)
 
 /* ---- memory-area callbacks ------------------------------------------------ */
 
-#ifndef RT_NMAX
-#define RT_NMAX 4096
-#endif
-
 void h_reg_mem_write(void)
 {
   GHOST_HAVOC();
   RT_AREA(a, in_a)
   IN(uint32_t, in_offset) IN(uint32_t, in_n)
-  ASSUME(in_a_size <= RT_NMAX);
   ASSUME(in_offset <= in_a_size && in_n <= in_a_size - in_offset);
   IN_MEM(in_src, (size_t)in_n * sizeof(RegisterAtom))
   reg_mem_write(a, (const RegisterAtom *)in_src, in_offset, in_n);
@@ -228,7 +223,6 @@ void h_reg_mem_read(void)
   GHOST_HAVOC();
   RT_AREA(a, in_a)
   IN(uint32_t, in_offset) IN(uint32_t, in_n)
-  ASSUME(in_a_size <= RT_NMAX);
   ASSUME(in_offset <= in_a_size && in_n <= in_a_size - in_offset);
   IN_MEM(in_dest, (size_t)in_n * sizeof(RegisterAtom))
   reg_mem_read(a, (RegisterAtom *)in_dest, in_offset, in_n);
@@ -236,14 +230,6 @@ void h_reg_mem_read(void)
 }
 
 /* ---- typed set / get -------------------------------------------------------- */
-
-void h_register_setx(void)
-{
-  RT_TABLE()
-  RT_VALUE(v) IN(_Bool, in_withvalidator)
-  register_setx(t, in_idx, v, in_withvalidator);
-  VERIF_CANARY();
-}
 
 void h_register_set(void)
 {
@@ -269,5 +255,55 @@ void h_register_get(void)
   RegisterValue *v = (RegisterValue *)in_vmem;
   v->type = (RegisterType)in_vtype; v->value.u64 = in_vbits;
   register_get(t, in_idx, v);
+  VERIF_CANARY();
+}
+
+/* ---- lemmas over the contracts (calls replaced by contracts) ----------------- */
+
+/* L1: a successful typed set followed by a get returns the identical value
+ * (bit-identical, also for floats) of the register's type; the get can only
+ * fail because the device refuses the read. */
+void h_lemma_set_get(void)
+{
+  RT_TABLE()
+  RT_VALUE(v) IN(_Bool, in_checked)
+  IN_MEM(in_outmem, sizeof(RegisterValue))
+  RegisterValue *out = (RegisterValue *)in_outmem;
+  RegisterAccess s = in_checked ? register_set(t, in_idx, v) : register_set_unsafe(t, in_idx, v);
+  uint8_t rd = st_rd_verdict;
+  RegisterAccess g = register_get(t, in_idx, out);
+  if (s.code == REG_ACCESS_SUCCESS) {
+    RegisterType ty = t->entry[in_idx].type;
+    CHECK(IMPLIES(in_checked, v.type == ty), "a checked set succeeds only with a value of the register's type");
+    CHECK(IMPLIES(!(t->entry[in_idx].area->read == st_area_read && ST_REFUSES(rd)), g.code == REG_ACCESS_SUCCESS),
+          "get after a successful set succeeds (unless the device refuses the read)");
+    CHECK(IMPLIES(g.code == REG_ACCESS_SUCCESS, out->type == ty), "get returns the register's type");
+    CHECK(IMPLIES(g.code == REG_ACCESS_SUCCESS, spec_bits(ty, out->value) == spec_bits(ty, v.value)),
+          "get returns the identical value (bit pattern)");
+  }
+  VERIF_CANARY();
+}
+
+/* L2: with a correctly typed value the unchecked variant stores exactly what
+ * the checked variant stores, and succeeds whenever the checked one does */
+void h_lemma_checked_unchecked(void)
+{
+  RT_TABLE()
+  RT_VALUE(v)
+  RegisterAccess s1 = register_set(t, in_idx, v);
+  uint64_t w1 = RT_ADDRESSED(t, in_idx) ? rt_bits(t, in_idx) : 0u;
+  uint8_t wr = st_wr_verdict;
+  RegisterAccess s2 = register_set_unsafe(t, in_idx, v);
+  uint64_t w2 = RT_ADDRESSED(t, in_idx) ? rt_bits(t, in_idx) : 0u;
+  if (s1.code == REG_ACCESS_SUCCESS) {
+    CHECK(IMPLIES(!(t->entry[in_idx].area->write == st_area_write && ST_REFUSES(wr)), s2.code == REG_ACCESS_SUCCESS),
+          "the unchecked variant accepts what the checked one accepts");
+    CHECK(IMPLIES(s2.code == REG_ACCESS_SUCCESS, w1 == w2), "both variants store identical words");
+    CHECK(w1 == spec_bits(v.type, v.value), "the stored words are the image of the value");
+  }
+  /* the unchecked variant still refuses bad handles and non-finite floats */
+  CHECK(IMPLIES(RT_INIT(t) && in_idx >= t->entries, s2.code == REG_ACCESS_NOENTRY), "unchecked: no such entry");
+  CHECK(IMPLIES(RT_ADDRESSED(t, in_idx) && !SPEC_FLOAT_OK(t->entry[in_idx].type, v.value), s2.code != REG_ACCESS_SUCCESS),
+        "unchecked: non-finite floats refused");
   VERIF_CANARY();
 }
